@@ -1,22 +1,43 @@
-"""Prints the markdown table of seeded changes (DESIGN.md §7.7) from /verif/seeded/*/meta.json."""
+"""Prints the markdown tables of seeded changes (DESIGN.md §7.7) from /verif/seeded/*/meta.json, one table per round
+(round 1 = seeds -1/-2, round 2 = -3/-4, round 3 = -5/-6)."""
 import glob
 import json
 import os
 import re
 
 ROOT = os.path.dirname(os.path.dirname(os.path.abspath(__file__)))
-rows = []
+
+
+def fmt(m):
+    return ', '.join('%s:%s' % (k, {0: 'missed', 1: 'DETECTED', 2: 'harness-error'}.get(v, v)) for k, v in m.items()) or '-'
+
+
+rounds = {1: [], 2: [], 3: []}
+stats = {}
 for f in sorted(glob.glob(os.path.join(ROOT, 'seeded', '*', 'meta.json'))):
     d = json.load(open(f))
+    n = int(d['seed'].split('-')[1])
+    rnd = (n + 1) // 2
     first = d.get('check_exit', {})
     re_ = d.get('recheck', {})
     note = ' '.join(d.get('what_it_needs', '').split())
     note = re.sub(r'\s+', ' ', note)[:230]
-
-    def fmt(m):
-        return ', '.join('%s:%s' % (k, {0: 'missed', 1: 'DETECTED', 2: 'harness-error'}.get(v, v)) for k, v in m.items()) or '-'
-    caught = [k for k, v in list(first.items()) + list(re_.items()) if v == 1]
-    rows.append('| %s | %s | %s | %s | %s |' % (d['seed'], note.replace('|', '/'), fmt(first), fmt(re_), ', '.join(sorted(set(caught))) or '**none**'))
-print('| seed | what it breaks / needs | first pass | after strengthening (patch on HEAD) | caught by |')
-print('|---|---|---|---|---|')
-print('\n'.join(rows))
+    own = d['property']
+    caught = sorted(set(k for k, v in list(first.items()) + list(re_.items()) if v == 1))
+    rounds[rnd].append('| %s | %s | %s | %s | %s |' % (d['seed'], note.replace('|', '/'), fmt(first), fmt(re_), ', '.join(caught) or '**none**'))
+    st = stats.setdefault(rnd, {'n': 0, 'first_own': 0, 'final': 0, 'final_own': 0})
+    st['n'] += 1
+    st['first_own'] += 1 if first.get(own) == 1 else 0
+    st['final'] += 1 if caught else 0
+    st['final_own'] += 1 if own in caught else 0
+for rnd in (1, 2, 3):
+    if not rounds[rnd]:
+        continue
+    st = stats[rnd]
+    print('**Round %d** — %d seeds; detected by their own property\'s check on the first run: %d; detected now: %d (%d by their own '
+          'property\'s check, %d only by a neighbouring one).\n' % (rnd, st['n'], st['first_own'], st['final'], st['final_own'],
+                                                                   st['final'] - st['final_own']))
+    print('| seed | what it breaks / needs | first run | after strengthening (patch on HEAD) | caught by |')
+    print('|---|---|---|---|---|')
+    print('\n'.join(rounds[rnd]))
+    print()
